@@ -147,3 +147,36 @@ def replay(rec):
         return {'results': res, 'error': None}
     except Exception as e:
         return {'results': [('C19.a', 'error', '%s: %s' % (type(e).__name__, (str(e).splitlines() or [''])[-1][:200]))], 'error': traceback.format_exc()}
+
+
+def zarg():
+    """The guess argument "z" of DirectCollocation.to_function (one column per control node, the guess of the algebraic
+    variable over the interval) against set_initial(z, c): with iteration limit 0 the result is the starting point."""
+    res = []
+    def mk(N, M, degree, scheme):
+        ocp = Ocp(T=N)
+        x = ocp.state(2); z = ocp.algebraic(); u = ocp.control()
+        ocp.set_der(x, ca.vertcat(z * x[0] - x[1] + u, x[0])); ocp.add_alg(z - (1 - x[1] ** 2))
+        ocp.add_objective(ocp.integral(ca.sumsqr(x) + u ** 2)); ocp.subject_to(-1 <= (u <= 1)); ocp.subject_to(ocp.at_t0(x) == ca.vertcat(0, 1))
+        ocp.method(DirectCollocation(N=N, M=M, degree=degree, scheme=scheme))
+        ocp.solver('ipopt', opts(0))
+        return ocp, x, z, u
+    for (N, M, degree, scheme, with_states) in ((4, 1, 2, 'radau', False), (3, 2, 2, 'legendre', False), (3, 2, 3, 'radau', True), (3, 3, 1, 'radau', False)):
+        tag = 'N%dM%dd%d%s%s' % (N, M, degree, scheme[0], 'x' if with_states else '')
+        try:
+            X0 = np.round(np.random.RandomState(1).rand(2, N + 1), 3)
+            ocp, x, z, u = quiet(mk, N, M, degree, scheme)
+            outs = [ocp.sample(z, grid='integrator_roots')[1], ocp.sample(x, grid='integrator')[1]]
+            if with_states: f = quiet(lambda: ocp.to_function('f', [ocp.sample(x, grid='control')[1], "z"], outs)); got = f(X0, 0.7 * np.ones((1, N + 1)))
+            else: f = quiet(lambda: ocp.to_function('f', ["z"], outs)); got = f(0.7 * np.ones((1, N + 1)))
+            o2, x2, z2, u2 = quiet(mk, N, M, degree, scheme)
+            if with_states: quiet(o2.set_initial, x2, X0)
+            quiet(o2.set_initial, z2, 0.7)
+            try: sol = quiet(o2.solve)
+            except Exception: sol = o2.non_converged_solution
+            ref = [sol.sample(z2, grid='integrator_roots')[1], sol.sample(x2, grid='integrator')[1].T]
+            d = max(float(np.abs(np.array(a).squeeze() - np.array(b).squeeze()).max()) for a, b in zip(got, ref))
+            res.append(('C19.a:zarg:' + tag, 'ok' if d < 1e-7 else 'mismatch', 'to_function("z") deviates from set_initial(z)/solve/sample by %.3g at the starting point' % d))
+        except Exception as e:
+            res.append(('C19.a:zarg:' + tag, 'error', '%s: %s' % (type(e).__name__, (str(e).splitlines() or [''])[-1][:200])))
+    return res
